@@ -52,9 +52,15 @@ func NewConnection(connection net.Conn, context Context) *Connection {
 // EncryptedWrite encrypts and writes bytes to the connection.
 // The method returns the number of written bytes and an error when writing failed.
 func (con *Connection) EncryptedWrite(b []byte) (int, error) {
+	encrypter := con.getEncrypter()
+	if encrypter == nil {
+		// the session is gone, the connection was closed in the meantime
+		return 0, io.ErrClosedPipe
+	}
+
 	var buffer bytes.Buffer
 	buffer.Write(b)
-	encrypted, err := con.getEncrypter().Encrypt(&buffer)
+	encrypted, err := encrypter.Encrypt(&buffer)
 
 	if err != nil {
 		log.Info.Panic("Encryption failed:", err)
